@@ -1,5 +1,5 @@
 """What MANIFEST.json claims, per property (edited as checks go green)."""
-HOOK_COMMITS = ["3b06268", "175c5a9", "8b9ca65", "bfbbd83", "c7825ef", "dbd50df", "069efd0", "b54cdaa", "7cccc24", "5bdb6c9", "dfcda43"]
+HOOK_COMMITS = ["3b06268", "175c5a9", "8b9ca65", "bfbbd83", "c7825ef", "dbd50df", "069efd0", "b54cdaa", "7cccc24", "5bdb6c9", "dfcda43", "77d9f9f"]
 NOT_APPLICABLE = {}
 TB = ("Trusted: Lean 4.33.0 kernel (thorough: + leanchecker); axioms at most propext, Classical.choice, Quot.sound "
       "(audited by #print axioms on every run); the translator extract/ and the differential harness (testing, not proof). ")
